@@ -734,7 +734,7 @@ theorem dirty_watch_empty_transaction_replies_null :
 
 /-- FINDING (end to end, consequence of `writers_signal_addInt_finding`): connection a WATCHes the
     missing key k and sees `EXISTS k = 0`; connection b sends `DECRBY k -9223372036854775808`, which
-    CREATES k (an empty string) and then fails with an overflow error (null reply) WITHOUT signalling
+    CREATES k (an empty string) and then fails with an overflow error (error reply) WITHOUT signalling
     k; a's transaction MULTI; EXISTS k; EXEC is NOT aborted and observes `EXISTS k = 1`: a watched
     key was created between WATCH and EXEC and the EXEC ran.  The same hole exists for every command
     in a `writers_signal_*_finding` (ZADD LT/GT on a missing key, ZUNIONSTORE with a wrong-typed
@@ -745,7 +745,7 @@ theorem watch_sound_end_to_end_finding :
         { id := "b", name := "DECRBY", args := [kk, [45, 57, 50, 50, 51, 51, 55, 50, 48, 51, 54, 56, 53, 52, 55, 55, 53, 56, 48, 56]] },
         { id := "a", name := "MULTI" }, { id := "a", name := "EXISTS", args := [kk] },
         { id := "a", name := "EXEC" } ]).2 =
-      [[okTok], [Tok.int 0], [Tok.nullBulk], [okTok], [queuedTok], [Tok.arr 1, Tok.int 1]] := by decide +kernel
+      [[okTok], [Tok.int 0], [Handler.e], [okTok], [queuedTok], [Tok.arr 1, Tok.int 1]] := by decide +kernel
 
 /-- (findings before the `fix:`es, now the required behaviour) `ZADD k LT 0 m` on a missing key creates
     nothing, and `ZUNIONSTORE d 1 x` with a wrong-typed operand fails before the destination exists -/
